@@ -777,7 +777,7 @@ def check_statistics(rep, prog, tier):
         has(tf, 'this_slice = [slice(None)] * r + [numpy.newaxis]')
     rep.ob('R-IDX', 'Spectrum.Fst frequencies', okc, 'counts_per_pop[i1..ir] = (i1..ir) on the last axis; pbar aligned by a trailing new axis', m.rel, fn.lineno,
            what='per-population allele counts are the entry indices')
-    okw = has(tf, 'asum = (self * a).sum()') and has(tf, 'dsum = (self * d).sum()') and tf.rstrip().endswith('return asum / (asum + dsum)')
+    okw = has(tf, 'asum = numpy.sum(self * a)') and has(tf, 'dsum = numpy.sum(self * d)') and tf.rstrip().endswith('return asum / (asum + dsum)')
     rep.ob('R-ALG', 'Spectrum.Fst combination', okw, 'sum_loci a / sum_loci (a + c) weighted by the spectrum', m.rel, fn.lineno, what='ratio of sums over SNPs (W&C eq 10)')
     for r in ((2, 3) if tier == 'thorough' else (2,)):
         ok = False
